@@ -320,7 +320,7 @@ def _plan(prop, T):
                 dict(flavour="rel", suite="big", args=dict(max_n=1000000 if T else 100000), shards=16, timeout=3400 if T else 150),
                 dict(flavour="rel", suite="big", args=dict(max_n=4000000 if T else 400000, probes="clear"), shards=16, timeout=3400 if T else 150),
             ],
-            rule="evaluation = one hooked snapshot in which {sentinel} + reachable slots + free list must partition 0..buffer.len() (and everything is free after clear), with buffer.len() <= 4*(peak+1)+max(hint,8); distinct non-trivial = closed canonical shapes + distinct (reference contents, operation) of the random histories",
+            rule="evaluation = one hooked snapshot in which {sentinel} + reachable slots + free list must partition 0..buffer.len() (and everything is free after clear), with buffer.len() <= 8*(peak+1)+2*max(hint,8)+64 (any linear growth policy passes; the shipped one stays below 3*(peak+1)+max(hint,8)); distinct non-trivial = closed canonical shapes + distinct (reference contents, operation) of the random histories",
             require={"snapshots_checked": 200000, "op_clear": 1000, "max_buffer_len_seen": 2000, "states": 3000, "big_clears_checked": 100, "max_entries_built": 300000},
             exhaustive_scope="slot accounting after every transition of the closures; bound checked along long churn",
             assumptions=["snapshot hook is faithful", "storage bound uses factor 4 where the pool's own policy gives < 3, so another linear policy is not flagged"],
